@@ -312,8 +312,8 @@ func asyncCheck(prop string, c asyncCfg, o *asyncObs, x *zzvrt.Exec) (string, []
 				}
 			}
 		}
-		if c.refLevel == "" {
-			// conservation (the reference accepts everything)
+		if c.refLevel == "" || c.refLevel == "INFO" {
+			// conservation (the reference accepts everything that is submitted: events are at WARN)
 			if int64(len(seen))+o.counter != int64(len(o.submitted)) {
 				add("C04", "conservation", fmt.Sprintf("appender %d: delivered %d + discarded %d != submitted %d (delivered=%v)", ai, len(seen), o.counter, len(o.submitted), delivered))
 			}
@@ -346,7 +346,10 @@ func asyncCheck(prop string, c asyncCfg, o *asyncObs, x *zzvrt.Exec) (string, []
 					}
 				}
 			case log.BufferFullPolicyDiscardOldest:
-				if c.prefill >= 50 {
+				// only where the worker is gated: with a free worker the prefill can drain completely while
+				// a producer sits between "buffer is full" and "remove the oldest", and the oldest item it
+				// then removes may legitimately be another producer's (it IS the oldest buffered item)
+				if c.prefill >= 50 && (c.gate == "closed" || strings.HasPrefix(c.gate, "tokens")) {
 					for id := range o.submitted {
 						if !strings.HasPrefix(id, "W:p") && seen[id] == 0 {
 							add("C06", "discardoldest-dropped-arriving-item", fmt.Sprintf("DiscardOldest policy: arriving item %s was dropped while older items were still buffered (delivered=%v)", id, tail12(delivered)))
@@ -431,6 +434,8 @@ func init() {
 			}
 			reg(prop, asyncCfg{policy: pol, prefill: 99, gate: "tokens4", producers: []string{"E", "W", "E"}}, "t", 2, 2)
 			reg(prop, asyncCfg{policy: pol, prefill: 99, gate: "tokens5", layout: true, producers: []string{"EW", "WE"}}, "qt", 2, 3)
+			reg(prop, asyncCfg{policy: pol, prefill: 98, gate: "tokens5", layout: true, refLevel: "INFO", producers: []string{"EE", "WE"}}, "qt", 2, 3)
+			reg(prop, asyncCfg{policy: pol, prefill: 0, refLevel: "INFO", nAppender: 2, producers: []string{"EE", "EW"}}, "qt", 2, 3)
 		}
 	}
 	// C05(a): Stop at every occupancy x policy x worker state
